@@ -227,3 +227,13 @@ def equal(a: ast.AST, b_text: str, env=None, rename: Optional[Dict[str, str]] = 
     `rename` maps role names used in b_text to atom names in the code."""
     pb = poly(parse_expr(b_text), {k: parse_expr(v) for k, v in (rename or {}).items()})
     return poly(a, env) == pb
+
+
+def same(node: ast.AST, expected_text: str, env=None) -> bool:
+    """canon(node with locals inlined) == canon(expected expression text)."""
+    return canon(node, env) == canon(parse_expr(expected_text))
+
+
+def same_any(node: ast.AST, expected_texts, env=None) -> bool:
+    c = canon(node, env)
+    return any(c == canon(parse_expr(t)) for t in expected_texts)
